@@ -16,7 +16,13 @@ def run(ctx):
     viol = viol + shm.miri_violations_for(ctx, mviol, "C02")
     pagg, pviol = shm.run_proc(ctx, 8 if q else 120)
     ctx.log("proc: %s" % pagg)
-    viol += [v for v in pviol if v["sig"] in ("proc-torn-snapshot", "proc-torn-or-error", "proc-unpublished", "reader-crashed", "reader-died", "reader-process-died")]
+    viol += [v for v in pviol if v["sig"] in ("proc-torn-snapshot", "generation-aba-blend", "proc-torn-or-error", "proc-unpublished", "reader-crashed", "reader-died", "reader-process-died")]
+    # the 16-bit generation comes back to the same value after 32767 publications: a reader stalled
+    # inside its copy for exactly that long (KNOWN_FINDINGS.txt)
+    aviol, aba, asamples = shm.run_aba(ctx, b)
+    viol += aviol
+    samples += asamples
+    ctx.log("generation cycle (ABA) cases: %s" % aba)
     # The daemon's own ways of stopping: (1) a new incarnation over a segment left mid-update, stopped
     # after 0..3 outcomes; (2) the real (hooked) binary receiving signals or losing a worker, with
     # the single-writer monitor on.
@@ -66,6 +72,7 @@ def run(ctx):
         "sched": cov,
         "miri": dict(magg, processes_lost=lost),
         "proc": pagg,
+        "generation_cycle_cases": aba,
         "daemon_stopped_over_half_written_segment": stop_cov,
         "whole_daemon_single_writer_monitor": sig_cov,
         "exhaustive": False,
